@@ -88,6 +88,12 @@ CHECKS = {
         text="33 edge kinds (by name, through Option/Vec/Box/map/tuple/array/Result/Range, generic argument, argument of argument, parameter default, inline, inlined generic, flatten, flattened enum, as, type override, skip, optional, self reference, cycle, payloads of every enum representation, inlined newtype variants in tagged enums, variant/container as, two types in one file) at the default placement, and every combination of 6-8 dependency placements x 3-5 root placements x 2-4 directory spellings for seven of them, under import-esm off and on. Per written file: imported names = free names of its declarations minus same-file names, parameters and built-ins; each once; every specifier well-formed and resolving to a written file that declares the name; no self-import. Static half: a file importing exactly dependencies() must be closed for decl().",
         note="Trusted: TLC, tsparse, module resolution as in C08. Names inside #[ts(type = ..)] overrides are user text.",
         design_ref="DESIGN.md section 5 (C03)"),
+    "C13": dict(
+        category="model_checking",
+        technique="model: visit order is a nondeterministic choice in Export.tla (all orders explored by TLC in C05/C06); implementation: the dependency-graph corpus compiled several times from scratch (fresh macro processes), the exporter universe exported under 1/2/4/8 threads and shuffled root orders; every observable (public string function, exported file) must have a single value - judged by TLC (Determinism.tla)",
+        text="Observables: decl, decl_concrete, name, inline, inline_flattened, export_to_string, output_path and DOCS of ~60 types with many dependencies, shared files and generics, plus every exported file, under 2 (quick) / 4 (thorough) independent from-scratch builds; plus every file of the exporter universe (shared file of 9 types, two instantiations of two generics, cycles, escapes) exported by 1, 2, 4, 8 threads in shuffled orders. The run also measures that the dependency order really differed between builds (18 types in the recorded run) and inside one macro process, i.e. that the nondeterminism the outputs must hide was present.",
+        note="Trusted: TLC for the equality judgement, cargo for independent builds. Nondeterminism that does not materialise in the explored builds/schedules is not seen; the model-level statement (all visit orders) is checked in C05/C06.",
+        design_ref="DESIGN.md section 5 (C13)"),
 }
 
 NOT_YET = "check not built yet (work in progress, see DESIGN.md appendix B)"
